@@ -18,6 +18,7 @@ import DuckModel.Parser
 import DuckModel.Includes
 import DuckModel.Spec.Inline
 import DuckModel.Lemmas.IncludeLemmas
+import DuckModel.Props.C14Run
 
 namespace Duck
 open Duck.Spec
